@@ -1,5 +1,4 @@
-From RV Require Import Base.Prelude Run.RunInflights Run.RunQuorum Run.RunRaftLog.
+From RV Require Import Base.Prelude Run.RunInflights Run.RunQuorum Run.RunMemStorage Run.RunNode Run.RunRaftLog.
 From Coq Require Import Extraction ExtrOcamlBasic.
 Extraction Language OCaml.
-Set Extraction Output Directory "../ocaml".
-Extraction "model.ml" run_inflights run_quorum run_raftlog N.of_nat N.to_nat N.div_eucl N.mul N.add.
+Extraction "model.ml" run_inflights run_quorum run_memstorage run_node run_raftlog N.of_nat N.to_nat N.div_eucl N.mul N.add.
